@@ -91,6 +91,10 @@ class M(HasTraits):
     def _kid(self, e):
         LOG.append((self._tag, "kidvalue"))
 
+    @observe("w", post_init=True)
+    def _w_post(self, e):
+        LOG.append((self._tag, "wpost"))
+
 
 I5 = st.integers(0, 5)
 OP = st.one_of(
@@ -332,6 +336,12 @@ def objects_run(case, ctx):
     c.kids[-1].value = 7
     if ("copy", "kidvalue") not in LOG:
         ctx.fail("live/observer", "%s: declared observer does not follow items added to the copy (log %r)" % (mode, LOG))
+    del LOG[:]
+    c.w += 1
+    if ("copy", "wpost") not in LOG:
+        ctx.fail("live/observer", "%s: the observer declared with post_init=True does not fire on the image (log %r)" % (mode, LOG))
+    if ("orig", "wpost") in LOG:
+        ctx.fail("live/original-notified", "%s: changing the image notified the original's post_init observer" % mode)
     c.wz += 1
     for pn in ("both_d", "both_o"):
         if getattr(c, pn) != c.w * 100 + c.wz:
